@@ -1004,13 +1004,27 @@ func (g *nsGen) declareVars() []any {
 	return decls
 }
 
-func genNumscript(r *rng, n int, tier string, emit func(J)) {
+func genNumscript(r *rng, n int, tier string, emit func(J)) { genNumscriptOpt(r, n, tier, emit, true) }
+
+// genNumscriptBase: the programs without the focused shapes of numscript_focus.go (for the areas that only want program texts to
+// start from: they keep the stream they had)
+func genNumscriptBase(r *rng, n int, tier string, emit func(J)) { genNumscriptOpt(r, n, tier, emit, false) }
+
+func genNumscriptOpt(r *rng, n int, tier string, emit func(J), focused bool) {
 	depth := 3
 	if tier == "thorough" {
 		depth = 5
 	}
 	for c := 0; c < n; c++ {
 		g := &nsGen{r: r.fork(), used: map[string]bool{}, asset: "USD", rich: map[string]bool{}, pos: map[string]bool{}}
+		// focused multi-statement shapes (numscript_focus.go): an ADDITIONAL case in front of about 7 % of the programs, decided and
+		// drawn from a stream of its own (no draw from the program's generator): program c itself is what it was
+		if fx := (&rng{s: g.r.s ^ 0xa0761d6478bd642f}); focused {
+			fx.next()
+			if fx.n(100) < 7 {
+				emit(focusCase(fx.fork()))
+			}
+		}
 		// a side stream of this program's generator, taken without a draw: what is decided from it (the two shapes below, the second
 		// variable map) leaves the choices of the main stream — hence every other program of the seed — as they were
 		side := &rng{s: g.r.s ^ 0x5bd1e9955bd1e995}
